@@ -120,6 +120,19 @@ func (s *Staking) processDoubleSignV5(config *params.YouParams, currentDB *state
 		return
 	}
 
+	// a double sign is two votes for DIFFERENT block hashes: one signed vote listed twice proves nothing
+	// (an honest detector only ever reports two different hashes, see ucon.Voter.processVoteMsg)
+	distinct := false
+	for _, info := range doubleSign.Signs[1:] {
+		if info.Hash != doubleSign.Signs[0].Hash {
+			distinct = true
+			break
+		}
+	}
+	if !distinct {
+		return
+	}
+
 	log.Info("slashing", "type", EvidenceTypeDoubleSignV5, "parent", parentHeight, "eRound", doubleSign.Round, "eRoundIndex", doubleSign.RoundIndex, "sinerIdx", doubleSign.SignerIdx, "signs", len(doubleSign.Signs))
 	switch {
 	case doubleSign.Round == parentHeight:
